@@ -223,7 +223,7 @@ PROPS = {
     ),
     "C14": dict(
         modules=["SpatialId.Props.C14", "SpatialId.Props.C06", "SpatialId.Props.Facts.Line"],
-        families=[("corridor", 400, 3000), ("corridordet", 150, 1000), ("corridorD9", 1, 1)],
+        families=[("corridor", 400, 3000), ("corridordet", 150, 1000), ("corridorD9", 1, 1), ("fit", 300, 2500)],
         trusted_base=COMMON_TB + ["closest_go (convex-hull distance), geodesy_go and the clearance fit built on them are oracles: the "
                                   "harness evaluates them with the same library calls for every line voxel and candidate voxel"],
         assumptions=["hZoom >= 8 in the generator (the layer fit does not terminate on grids with few columns); radii up to 1.4 voxel widths"],
@@ -243,7 +243,7 @@ PROPS = {
         modules=["SpatialId.Props.C15", "SpatialId.Props.Tie.Shift", "SpatialId.Props.Tie.Api", "SpatialId.Props.C01", "SpatialId.Props.C02", "SpatialId.Props.C03", "SpatialId.Props.C04",
                  "SpatialId.Props.C05", "SpatialId.Props.C08", "SpatialId.Props.C10", "SpatialId.Props.C11", "SpatialId.Props.C13", "SpatialId.Props.Facts.Point"],
         families=[("reject", 40000, 300000), ("newpt", 15000, 100000), ("points", 5000, 40000), ("tiles", 1000, 5000),
-                  ("qv", 1500, 8000)],
+                  ("qv", 1500, 8000), ("fit", 300, 2500)],
         trusted_base=COMMON_TB + F64_TB + ["Go strconv.ParseInt/Atoi and strings.Split semantics are modelled by parseInt64/splitSlash "
                                             "and compared on every malformed case, not proved"],
         assumptions=["zoom fields inside otherwise well-formed IDs stay within 0..35 (the property's own restriction)"],
